@@ -42,6 +42,7 @@ OBLIGATIONS = {
     "far_from_the_origin": "a track at projected-metre magnitudes (x 6.5e5, y 6.9e6) with decimetre detail was simplified",
     "numpy_scalar_coordinates": "a track whose coordinates are numpy.float64 scalars was simplified",
     "second_call_in_a_row": "a simplification was judged right after another one in the same process",
+    "held_result_read_again": "the result of an earlier simplification, kept by its caller, was read again after a later simplification",
     "closed_loop": "first and last positions coincide (n >= 3)",
     "consecutive_duplicate": "two consecutive fixes at the same position",
     "revisit": "a position visited again after leaving it",
@@ -122,6 +123,10 @@ def _classify(ptsl, ctx):
     return rep
 
 
+class OtherEdge(Exception):
+    pass
+
+
 def check_simplify(variant, ptsl, tol_l, algo, ctx, rep=None, ctype="float", frame="near", via="function"):
     """simplify(track, tolerance, mode) on one lattice track.  tol_l is the tolerance in lattice units."""
     ptsl = [tuple(p) for p in ptsl]
@@ -166,6 +171,11 @@ def check_simplify(variant, ptsl, tol_l, algo, ctx, rep=None, ctype="float", fra
                 net.addEdge(Edge("e%d" % k, g), a, b)
             net.simplify(tol, MODES[algo])
             out = net.EDGES["e1"].geom
+            first = net.EDGES["e0"].geom          # the edge simplified before this one is still a part of ITS polyline
+            ends = [(float(first[k].position.getX()), float(first[k].position.getY())) for k in (0, len(first) - 1)]
+            want = [(float(other[k].position.getX()), float(other[k].position.getY())) for k in (0, other.size() - 1)]
+            if ends != want:
+                raise OtherEdge("edge e0 runs %r after Network.simplify, its polyline ran %r" % (ends, want))
         else:
             out = simplify(track, tol, MODES[algo])
         rows = []
@@ -176,6 +186,9 @@ def check_simplify(variant, ptsl, tol_l, algo, ctx, rep=None, ctype="float", fra
     st, r = guard(call)
     if st == "hang":
         ctx.violation(algo + "/does-not-return", case, r)
+        return
+    if st == "exc" and str(r).startswith("OtherEdge"):
+        ctx.violation(algo + "/network/another-edge-loses-its-end-points", case, r)
         return
     if st == "exc":
         if rep and str(r).startswith("ZeroDivisionError"):
@@ -224,11 +237,30 @@ def check_after(variant, first, second, ctx):
     the process (operator singletons, class attributes, module globals) must not reach the second."""
     A, tolA, algoA = first
     B, tolB, algoB = second
-    guard(simplify, _mk_track(variant, [tuple(p) for p in A]), tolA * alpha.scale(variant), MODES[algoA])
-    sub = Sub(ctx, {"op": "after", "variant": variant, "first": [[list(p) for p in A], tolA, algoA],
-                    "second": [[list(p) for p in B], tolB, algoB]})
+    st1, held = guard(simplify, _mk_track(variant, [tuple(p) for p in A]), tolA * alpha.scale(variant), MODES[algoA])
+    if st1 != "ok":
+        ctx.count("call_judged_after_a_refused_call")
+    rows1 = _rows(held) if st1 == "ok" else None
+    case = {"op": "after", "variant": variant, "first": [[list(p) for p in A], tolA, algoA],
+            "second": [[list(p) for p in B], tolB, algoB]}
+    sub = Sub(ctx, case)
     check_simplify(variant, B, tolB, algoB, sub)
     ctx.oblige("second_call_in_a_row")
+    # the result of the FIRST call, still held by its caller, read again after the second call: the same fixes as when it
+    # was returned (it was judged as a subsequence of its input under its own case; nobody touched it since)
+    if rows1 is not None:
+        rows2 = _rows(held)
+        if rows2 != rows1:
+            ctx.violation(algoA + "/result-held-by-the-caller-changes-during-a-later-call", case,
+                          {"when_returned": [list(map(str, r)) for r in rows1][:8], "after_the_later_call": [list(map(str, r)) for r in (rows2 or [])][:8]})
+        ctx.oblige("held_result_read_again")
+
+
+def _rows(out):
+    try:
+        return [(_fields(out[k].timestamp), float(out[k].position.getX()), float(out[k].position.getY())) for k in range(len(out))]
+    except Exception as e:
+        return [("unreadable", repr(e)[:100])]
 
 
 class Sub(object):
@@ -308,7 +340,8 @@ def run_shard(shard, ctx):
         algos = alpha.order(v, sorted(MODES))
         for p3 in L:
             A = [o, p1, p2, p3]
-            for tolA in AFTER_TOLS:
+            for tolA in AFTER_TOLS + [0.0]:      # 0.0: outside the statement (positive tolerances); on a track with a run of
+                                                 # zero deviation the call is refused (RecursionError) - the NEXT call is judged
                 for algoA in algos:
                     for B in seconds:
                         for tolB in AFTER_TOLS:
